@@ -6,4 +6,4 @@ W=/root/scratch/try.$$; mkdir -p $W
 git -C /repo worktree add -q --detach $W/wt HEAD || exit 3
 (cd $W/wt && git apply $P) || { echo "patch does not apply"; git -C /repo worktree remove --force $W/wt; rm -rf $W; exit 3; }
 GOVC_OUT=$W/out timeout 1500 /verif/bin/govc check -repo $W/wt -p $ID "$@" 2>&1 | grep -E "^VIOLATION|^UNDECIDED|^KNOWN|^$ID |engine:" | sed "s|$W/out|<out>|" | cut -c1-260
-git -C /repo worktree remove --force $W/wt; rm -rf $W
+rm -rf /root/scratch/lastout; cp -r $W/out /root/scratch/lastout 2>/dev/null; git -C /repo worktree remove --force $W/wt; rm -rf $W
